@@ -649,6 +649,13 @@ def _check_case(case, ctx, sample_differential):
     r_lits = [v for s in r_stmts for v in lits_of(s)]
     for l in case['lits']:
         if r_lits.count(l['text']) != o_lits.count(l['text']):
+            # literals are matched by text: if the same text also occurs as a CONTINUED literal with a trigger, the count
+            # cannot tell which occurrence was damaged - attribute it to the continued one (the weaker claim: the
+            # line-based sanitiser is a listed finding for continued literals, and an unlisted defect of plain
+            # literals still shows in every case that has no such twin)
+            twin = next((m for m in case['lits'] if m['text'] == l['text'] and m.get('split') is not None and m['trig']), None)
+            if twin is not None and l.get('split') is None:
+                continue
             ctx.fail(lit_sig(l), case,
                      f'literal {l["text"]!r} occurs {o_lits.count(l["text"])}x in the original, {r_lits.count(l["text"])}x in the '
                      f'regenerated code; regenerated literals {r_lits!r}'[:600])
